@@ -193,6 +193,149 @@ func fsCasketfileText(T, root, prefix, browse, index, extra string) string {
 	return b.String()
 }
 
+// ---------------------------------------------------------------------------
+// HOW a server block is written (c02.sites, c03.addrs): the same meaning in many spellings.
+// ---------------------------------------------------------------------------
+
+// style bits of a block; the models never look at them
+const (
+	stRootSlash   = 1 << iota // root written with a trailing slash
+	stRootDetour              // root written <root>/../<its last element>
+	stRootQuoted              // root in double quotes
+	stRootLast                // the root line is the last line of the block
+	stAddrLines               // one address per line (comma + newline) instead of one line
+	stHostUpper               // host names in upper case
+	stIndexLines              // one `index` line per index page
+	stRootDecoy               // an earlier `root` line naming another directory (the last one counts)
+	stComments                // comment lines, blank lines, spaces instead of tabs
+	stBrowsePath              // browse scope given by `path` inside the browse block
+	stShuffle                 // the directives of the block in another order (directives of the same kind keep theirs)
+	stBlockForm               // directives with a one-line and a block form are written as blocks (c03: basicauth)
+	stAll         = 1<<iota - 1
+)
+
+const stBits = 12
+
+var stNames = []string{"root-slash", "root-detour", "root-quoted", "root-last", "addr-lines", "host-upper", "index-lines", "root-decoy", "comments", "browse-path", "shuffle", "block-form"}
+
+// fsBlockSpec is one server block: what it means and (style) how it is written.
+type fsBlockSpec struct {
+	hosts  []string // "x.test" is written http://x.test:0, any other name (localhost, 127.0.0.1) name:0
+	root   string   // fixture path
+	prefix string
+	browse string   // "scope|type,type;scope|…"
+	index  string   // comma separated
+	extra  []string // further directives, each complete (with its block, if any) and newline-terminated
+	style  int
+}
+
+func fsAddrText(host, prefix string, style int) string {
+	h := host
+	if style&stHostUpper != 0 {
+		h = strings.ToUpper(h)
+	}
+	if strings.HasSuffix(host, ".test") {
+		return "http://" + h + ":0" + prefix
+	}
+	return h + ":0" + prefix
+}
+
+func fsBlockText(T string, b fsBlockSpec) string {
+	var items []string
+	root := T + b.root
+	if b.style&stRootDetour != 0 {
+		root += "/../" + filepath.Base(b.root)
+	}
+	if b.style&stRootSlash != 0 {
+		root += "/"
+	}
+	if b.style&stRootQuoted != 0 {
+		root = `"` + root + `"`
+	}
+	rootItem := "\troot " + root + "\n"
+	if b.style&stRootDecoy != 0 {
+		items = append(items, "\troot "+T+"/decoy\n")
+	}
+	if b.style&stRootLast == 0 {
+		items = append(items, rootItem)
+	}
+	if b.index != "" {
+		names := strings.Split(b.index, ",")
+		if b.style&stIndexLines != 0 {
+			for _, n := range names {
+				items = append(items, "\tindex "+n+"\n")
+			}
+		} else {
+			items = append(items, "\tindex "+strings.Join(names, " ")+"\n")
+		}
+	}
+	if b.browse != "" {
+		for _, item := range strings.Split(b.browse, ";") {
+			scope, types, _ := strings.Cut(item, "|")
+			arch := ""
+			if types != "" {
+				arch = "\t\tservearchive " + strings.Join(strings.Split(types, ","), " ") + "\n"
+			}
+			switch {
+			case b.style&stBrowsePath != 0:
+				items = append(items, "\tbrowse {\n"+arch+"\t\tpath "+scope+"\n\t}\n")
+			case types == "":
+				items = append(items, "\tbrowse "+scope+"\n")
+			default:
+				items = append(items, "\tbrowse "+scope+" {\n"+arch+"\t}\n")
+			}
+		}
+	}
+	items = append(items, b.extra...)
+	if b.style&stShuffle != 0 {
+		// a random interleaving that keeps the order among directives of the same kind
+		r := hx.NewRng(uint64(b.style))
+		var kinds []string
+		byKind := map[string][]string{}
+		for _, it := range items {
+			k := strings.Fields(it)[0]
+			if _, ok := byKind[k]; !ok {
+				kinds = append(kinds, k)
+			}
+			byKind[k] = append(byKind[k], it)
+		}
+		items = items[:0:0]
+		for len(kinds) > 0 {
+			i := r.Intn(len(kinds))
+			k := kinds[i]
+			items = append(items, byKind[k][0])
+			byKind[k] = byKind[k][1:]
+			if len(byKind[k]) == 0 {
+				kinds = append(kinds[:i], kinds[i+1:]...)
+			}
+		}
+	}
+	if b.style&stRootLast != 0 {
+		items = append(items, rootItem)
+	}
+	var sb strings.Builder
+	addrs := make([]string, len(b.hosts))
+	for i, h := range b.hosts {
+		addrs[i] = fsAddrText(h, b.prefix, b.style)
+	}
+	sep := ", "
+	if b.style&stAddrLines != 0 {
+		sep = ",\n"
+	}
+	sb.WriteString(strings.Join(addrs, sep) + " {\n")
+	for i, it := range items {
+		if b.style&stComments != 0 {
+			it = strings.ReplaceAll(it, "\t", "    ")
+			if i%2 == 0 {
+				sb.WriteString("\n    # a comment { with braces }\n")
+			}
+		}
+		sb.WriteString(it)
+	}
+	sb.WriteString("}\n")
+	return sb.String()
+}
+
 type fsSite struct {
 	fx   *fsFixture
 	id   *fsIdent
@@ -337,13 +480,18 @@ func (s *fsSite) roundTrip(method, target, extraHeaders string) (out, kind strin
 // headEnc=false: a 200 to HEAD is rendered without its Content-Encoding (a site with the gzip
 // directive announces gzip for any body it would compress).
 func (s *fsSite) roundTripOpt(method, target, extraHeaders string, headEnc bool) (out, kind string) {
+	return s.roundTripHost("fs.test", method, target, extraHeaders, headEnc)
+}
+
+// roundTripHost: the same with the Host header of one of several sites of the instance.
+func (s *fsSite) roundTripHost(host, method, target, extraHeaders string, headEnc bool) (out, kind string) {
 	c, err := net.DialTimeout("tcp", s.addr, 5*time.Second)
 	if err != nil {
 		return "io-error:dial", "io-error"
 	}
 	defer c.Close()
 	c.SetDeadline(time.Now().Add(20 * time.Second))
-	fmt.Fprintf(c, "%s %s HTTP/1.1\r\nHost: fs.test\r\n%sConnection: close\r\n\r\n", method, target, extraHeaders)
+	fmt.Fprintf(c, "%s %s HTTP/1.1\r\nHost: %s\r\n%sConnection: close\r\n\r\n", method, target, host, extraHeaders)
 	resp, err := http.ReadResponse(bufio.NewReader(c), &http.Request{Method: method})
 	if err != nil {
 		return "io-error:" + strings.SplitN(err.Error(), ":", 2)[0], "io-error"
